@@ -123,7 +123,7 @@ static void run_witness(uint64_t idx, pv_rng* rng) {
     /* every fourth witness is encoded while the allocator refuses its next request: whatever polyseed_encode does with
      * memory, it has no way to report failure, so it must still produce the phrase without overrunning anything */
     bool armed = (idx / (uint64_t)pv_nlangs) % 4 == 3;
-    if (armed) { pv_w->fail_countdown = 1; PV_COUNT("witness.encodes_with_failing_allocator", 1); }
+    if (armed) { pv_arm_some_request(); PV_COUNT("witness.encodes_with_failing_allocator", 1); }
     size_t n = pv_api_encode(s, L->lib, coin, out);
     pv_w->fail_countdown = 0;
     PV_COUNT("evaluations", 1); PV_COUNT("witness.encodes", 1);
@@ -170,7 +170,7 @@ static void run_lengths(uint64_t idx, pv_rng* rng) {
     if (!s) { pv_violation("C17/witness-load", "%s: cannot load %s", L->name_en, pv_mseed_str(&m)); return; }
     char* out = malloc(POLYSEED_STR_SIZE);
     pv_cur.note = "exact-length-encode";
-    bool armed = idx % 5 == 4; if (armed) pv_w->fail_countdown = 1;
+    bool armed = idx % 5 == 4; if (armed) pv_arm_some_request();
     size_t n = pv_api_encode(s, L->lib, coin, out);
     pv_w->fail_countdown = 0;
     PV_COUNT("evaluations", 1);
